@@ -483,6 +483,11 @@ class RangeNode(SyntaxNode):
                     e = sys.exc_info()[1]
                     return attach(query.error_query(e), self)
 
+            if not field.format:
+                # The field is stored but not indexed
+                return attach(query.error_query("Field %r is not indexed"
+                                                % fieldname), self)
+
             if start:
                 start = get_single_text(field, start, tokenize=False,
                                         removestops=False)
